@@ -16,11 +16,15 @@ RULE = ("(1) exhaustive: every string over the 12-symbol alphabet '[ ] \\ / = # 
         "alphabet; (3) documents generated from random trees/overlaps of tags with escaped leaves, each "
         "emitted together with its expected plain text, per-character open-tag list and validity. "
         "Non-trivial: the string contains '[' or '\\' (escape slice) / the document has >=2 tags and >=1 "
-        "styled character; distinct by string / document.")
+        "styled character; distinct by string / document. (4) every string over '[ ] \\ / a b space = newline' up to "
+        "length 6 (quick) / 7 (thorough), and random longer strings spliced with odd tag spellings, interpreted by the "
+        "real renderer and by a hand-written reference interpreter (rv/model/markupref.py): same error status, same "
+        "plain text, same tagged regions in opening order.")
 ASSUMPTIONS = ["emoji replacement is a separate documented feature and is switched off for the verbatim claims; "
                "a second pass with emoji on runs on strings without a :code: match",
                "effective style read back from Text.render segments; attributes compared by on/off, colours by value"]
-REQUIRED = ["mon.escape_alone", "mon.escape_embedded", "mon.doc_plain", "mon.doc_styles", "mon.doc_error"]
+REQUIRED = ["mon.escape_alone", "mon.escape_embedded", "mon.doc_plain", "mon.doc_styles", "mon.doc_error",
+            "mon.reference_interpreter"]
 MIN_NONTRIVIAL = {"quick": 20000, "thorough": 200000}
 EXHAUSTIVE = {"quick": False, "thorough": False}
 
@@ -162,9 +166,76 @@ def wl_documents(ctx, rng, case_no):
     ctx.case_done(("doc", doc, repr(base)), ntags >= 2 and styled >= 1, wit)
 
 
+TAG_SIGMA = "[]\\/ab =\n"
+
+
+def check_against_reference(ctx, s):
+    from rich import markup
+    from rich.errors import MarkupError
+    from rich.style import Style
+    from rv.model import markupref
+    ctx.count("mon.reference_interpreter")
+    want = markupref.interpret(s, Style.normalize)
+    try:
+        t = markup.render(s, emoji=False)
+        got = ("ok", t.plain, [(sp.start, sp.end, str(sp.style)) for sp in t.spans])
+    except MarkupError:
+        got = ("error",)
+    if got[0] != want[0]:
+        ctx.violation("MarkupError-raised-iff-close-without-open-violated:" +
+                      ("raised-but-should-not" if got[0] == "error" else "not-raised-but-should"),
+                      {"markup": s, "got": got, "reference": want})
+    elif got[0] == "ok" and got[1] != want[1]:
+        ctx.violation("tags-removed-text-differs-from-reference", {"markup": s, "got": got, "reference": want})
+    elif got[0] == "ok" and got[2] != want[2]:
+        ctx.violation("tagged-regions-differ-from-reference", {"markup": s, "got": got, "reference": want})
+    return got[0], want
+
+
+def wl_reference_exhaustive(ctx):
+    """Every string over '[ ] \\ / a b space = newline' up to length 6 (quick) / 7 (thorough), interpreted by the
+    real renderer and by the hand-written reference interpreter: same error status, same plain text, same tagged
+    regions in opening order."""
+    maxlen = 7 if ctx.tier == "thorough" else 6
+    k = 0
+    n = 0
+    for length in range(0, maxlen + 1):
+        for tup in itertools.product(TAG_SIGMA, repeat=length):
+            k += 1
+            if k % ctx.nshards != ctx.shard:
+                continue
+            s = "".join(tup)
+            if "[" not in s:
+                continue
+            status, want = check_against_reference(ctx, s)
+            n += 1
+            if status == "error" or (want[0] == "ok" and want[2]):
+                ctx.nontrivial.add((1 << 40) + k)
+                if n % 30011 == 1:
+                    ctx.samples.setdefault("reference_exhaustive", []).append({"markup": s, "reference": want})
+    ctx.evaluations += n
+    ctx.mark_exhaustive("tag-sigma<=%d" % maxlen, n)
+
+
+def wl_reference_random(ctx, rng, case_no):
+    alphabet = "[[]]//\\ab =\nlinkredbold#1 "
+    s = "".join(rng.choice(alphabet) for _ in range(rng.randint(1, 28)))
+    if rng.random() < 0.5:
+        # splice in real tag words so that names normalise ("b" -> "bold") and parameters occur
+        words = ["[b]", "[/b]", "[bold]", "[/bold]", "[/]", "[red]", "[/red]", "[link=a]", "[/link]", "[//]", "[/ /]",
+                 "[a/]", "[/a/]", "[ /a]", "[/ a ]", "[a=b]", "[/a=b]", "\\[b]", "\\\\[b]", "[not bold]", "[/not bold]"]
+        for _ in range(rng.randint(1, 4)):
+            pos = rng.randint(0, len(s))
+            s = s[:pos] + rng.choice(words) + s[pos:]
+    status, want = check_against_reference(ctx, s)
+    ctx.case_done(("ref", s), "[" in s and (status == "error" or bool(want[0] == "ok" and want[2])), {"markup": s})
+
+
 def workloads(tier):
     big = tier == "thorough"
     return [WL("exhaustive", wl_exhaustive, kind="custom"),
+            WL("reference_exhaustive", wl_reference_exhaustive, kind="custom"),
+            WL("reference_random", wl_reference_random, 600000 if big else 40000),
             WL("random_escape", wl_random_escape, 600000 if big else 40000),
             WL("documents", wl_documents, 1500000 if big else 100000)]
 
